@@ -2,7 +2,7 @@ import LhasaV.Lemmas.HeaderRT1
 /-!
 Round trip, layer 2: `decodeExt` on the encoded body of a typed extended header is `applyExt`
 (with the CRC field of a common header zeroed in `raw`), and the chain walk `extLoop` over an
-encoded chain folds `applyExt` over the typed headers.
+encoded chain folds `applyExt` over the typed headers; bytes after the chain terminator are never read.
 -/
 namespace LhasaV.HeaderRT
 open LhasaV LhasaV.Header LhasaV.Spec.HeaderEnc
@@ -235,18 +235,19 @@ theorem chain_length {fs : Nat} (hfs : fs = 2 ∨ fs = 4) (crc : Nat) (es : List
       List.length_nil]
     omega
 
-theorem extLoop_chain {fs : Nat} (hfs : fs = 2 ∨ fs = 4) {crc : Nat} (hcrc : crc < 65536) :
+theorem extLoop_chain {fs : Nat} (hfs : fs = 2 ∨ fs = 4) {crc : Nat} (hcrc : crc < 65536) (post : Bytes) :
     ∀ (es : List Ext) (h : Hdr) (pre : Bytes) (avail : Nat),
     (∀ e ∈ es, e.wf = true) → (∀ e ∈ es, extSize fs e < 2 ^ (8 * fs)) →
-    h.raw = pre ++ (leN fs (firstSize fs es) ++ chain fs crc es) →
+    h.raw = pre ++ (leN fs (firstSize fs es) ++ (chain fs crc es ++ post)) →
     chainLen fs es ≤ avail →
     extLoop fs h pre.length avail =
-      .ok (setRaw (es.foldl (applyExt crc) h) (pre ++ (leN fs (firstSize fs es) ++ chain fs 0 es))) := by
+      .ok (setRaw (es.foldl (applyExt crc) h) (pre ++ (leN fs (firstSize fs es) ++ (chain fs 0 es ++ post)))) := by
   intro es
   induction es with
   | nil =>
     intro h pre avail _ _ hraw _
-    have hd : h.raw.drop pre.length = leN fs 0 ++ [] := by rw [hraw, List.drop_left' rfl]; rfl
+    -- the terminating zero size is read and the loop returns: `post` is never looked at
+    have hd : h.raw.drop pre.length = leN fs 0 ++ post := by rw [hraw, List.drop_left' rfl]; rfl
     rw [extLoop, if_pos (by rw [hraw]; simp only [List.length_append, leN_length hfs]; omega),
       rdN_drop hfs hd (Nat.pow_pos (by omega))]
     simp only [Res.ok_bind, if_true]
@@ -258,17 +259,17 @@ theorem extLoop_chain {fs : Nat} (hfs : fs = 2 ∨ fs = 4) {crc : Nat} (hcrc : c
     have hse := hsz e (List.mem_cons_self ..)
     rw [chainLen_cons] at hav
     have hlen : extSize fs e = (e.body crc).2.length + 1 + fs := by rw [extSize, body_len_crc crc e]
-    have hd : h.raw.drop pre.length = leN fs (extSize fs e) ++ chain fs crc (e :: es) := by
+    have hd : h.raw.drop pre.length = leN fs (extSize fs e) ++ (chain fs crc (e :: es) ++ post) := by
       rw [hraw, List.drop_left' rfl]; rfl
     have hd2 := drop_app (m := pre.length + fs) hd (by rw [leN_length hfs])
     rw [chain_cons] at hd2
     rw [extLoop, if_pos (by rw [hraw]; simp only [List.length_append, leN_length hfs]; omega),
       rdN_drop hfs hd hse]
     simp only [Res.ok_bind]
-    rw [if_neg (by omega), if_neg (by omega), rdU8_drop hd2 (body_type_lt crc hwe)]
+    rw [if_neg (by omega), if_neg (by omega), rdU8_drop (rest := _ ++ post) hd2 (body_type_lt crc hwe)]
     simp only [Res.ok_bind]
     have hraw' : h.raw = (pre ++ (leN fs (extSize fs e) ++ [UInt8.ofNat (e.body crc).1])) ++
-        ((e.body crc).2 ++ (leN fs (firstSize fs es) ++ chain fs crc es)) := by
+        ((e.body crc).2 ++ (leN fs (firstSize fs es) ++ (chain fs crc es ++ post))) := by
       rw [hraw, chain_cons]; simp only [firstSize, List.append_assoc]
     have e1 : extSize fs e - fs - 1 = (e.body crc).2.length := by omega
     rw [e1, decodeExt_enc hcrc hwe hraw' (by simp only [List.length_append, leN_length hfs, List.length_cons, List.length_nil]; omega)]
@@ -282,6 +283,23 @@ theorem extLoop_chain {fs : Nat} (hfs : fs = 2 ∨ fs = 4) {crc : Nat} (hcrc : c
     rw [foldl_setRaw, setRaw_setRaw, List.foldl_cons, chain_cons, body_type_crc crc e]
     simp only [firstSize, List.append_assoc]
 
+/-- the chain walk over a header whose raw bytes continue with `post` after the chain terminator
+(levels 2 and 3: the trail): the loop stops at the zero size, `post` only enlarges `available_length` -/
+theorem decodeExtendedHeaders_chain_trail {fs : Nat} (hfs : fs = 2 ∨ fs = 4) {crc : Nat} (hcrc : crc < 65536)
+    (es : List Ext) (post : Bytes) (h : Hdr) (pre : Bytes) {off : Nat} (hoff : off = pre.length)
+    (hlv : (if h.level = 3 then 4 else 2) = fs)
+    (hwf : ∀ e ∈ es, e.wf = true) (hsz : ∀ e ∈ es, extSize fs e < 2 ^ (8 * fs))
+    (hraw : h.raw = pre ++ (leN fs (firstSize fs es) ++ (chain fs crc es ++ post))) :
+    decodeExtendedHeaders h off =
+      .ok (setRaw (es.foldl (applyExt crc) h) (pre ++ (leN fs (firstSize fs es) ++ (chain fs 0 es ++ post)))) := by
+  subst hoff
+  have hl : h.raw.length = pre.length + fs + chainLen fs es + post.length := by
+    rw [hraw]; simp only [List.length_append, leN_length hfs, chain_length hfs]; omega
+  unfold decodeExtendedHeaders
+  simp only [hlv]
+  rw [if_neg (by omega)]
+  exact extLoop_chain hfs hcrc post es h pre _ hwf hsz hraw (by omega)
+
 theorem decodeExtendedHeaders_chain {fs : Nat} (hfs : fs = 2 ∨ fs = 4) {crc : Nat} (hcrc : crc < 65536)
     (es : List Ext) (h : Hdr) (pre : Bytes) {off : Nat} (hoff : off = pre.length)
     (hlv : (if h.level = 3 then 4 else 2) = fs)
@@ -289,13 +307,10 @@ theorem decodeExtendedHeaders_chain {fs : Nat} (hfs : fs = 2 ∨ fs = 4) {crc : 
     (hraw : h.raw = pre ++ (leN fs (firstSize fs es) ++ chain fs crc es)) :
     decodeExtendedHeaders h off =
       .ok (setRaw (es.foldl (applyExt crc) h) (pre ++ (leN fs (firstSize fs es) ++ chain fs 0 es))) := by
-  subst hoff
-  have hl : h.raw.length = pre.length + fs + chainLen fs es := by
-    rw [hraw]; simp only [List.length_append, leN_length hfs, chain_length hfs]; omega
-  unfold decodeExtendedHeaders
-  simp only [hlv]
-  rw [if_neg (by omega)]
-  exact extLoop_chain hfs hcrc es h pre _ hwf hsz hraw (by omega)
+  have := decodeExtendedHeaders_chain_trail hfs hcrc es [] h pre hoff hlv hwf hsz
+    (by rw [List.append_nil]; exact hraw)
+  rw [List.append_nil] at this
+  exact this
 
 theorem extSize_le_chainLen (fs : Nat) (es : List Ext) : ∀ e ∈ es, extSize fs e ≤ chainLen fs es := by
   induction es with
